@@ -21,7 +21,7 @@ RULE = ("query texts derived from grammar.pest (terms, phrases, @attributes, tag
         "implicit AND, grouping and field-scoped groups, every special character escaped, numeric "
         "terms incl. negative/float/exponent) + mutations of the repository's own test queries. "
         "Judged = accepted by the parser. Non-trivial: more than a single plain term. Distinct by "
-        "(multiset of node types capped at 2, set of escape classes used in the text).")
+        "(set of node types in the tree, set of escape classes used in the text).")
 ASSUMPTIONS = ["tree equality is `QueryNode: PartialEq` as computed by the worker; two trees whose "
                "`{:?}` renderings are identical are also taken as equal (NaN bounds)",
                "the minimised witness is found by deleting characters only; its signature is "
@@ -346,7 +346,7 @@ def run_case(ctx, case):
         if st == "ok":
             t1 = ddtree.parse(out["tree"])
             types = ddtree.node_types(t1)
-            tkey = sorted("%s*%d" % (t, min(types.count(t), 2)) for t in set(types))
+            tkey = sorted(set(types))
             ecl = escape_classes(q)
             nontrivial = len(types) > 1 or bool(ecl) or types[0] not in ("AttributeTerm", "MatchAllDocs")
             ctx.ok((tkey, ecl), nontrivial, sample={"query": q, "lucene": out["lucene"], "tree": out["tree"][:300]})
